@@ -150,6 +150,23 @@ class CursorInterp:
                         env["streams"].add(td)
                     elif td in env["streams"] and isinstance(t, ast.Name):
                         env["streams"].discard(td)
+            # a helper object built around the stream:  x = Helper(file, ...)  keeps it in the fields its constructor stores it in
+            v = s.value
+            if isinstance(v, ast.Call) and isinstance(v.func, (ast.Name, ast.Attribute)) and len(s.targets) == 1 and isinstance(s.targets[0], ast.Name):
+                k = self.prog.resolve_class(env["fi"].module, v.func)
+                if k is not None:
+                    from .region import ctor_fields
+                    cf = ctor_fields(k)
+                    flds = set()
+                    for pos, a in enumerate(v.args):
+                        if pos in cf and dotted(a) in env["streams"]:
+                            flds.add("self." + cf[pos][0])
+                    for kw in v.keywords:
+                        for pos, (fld, pn) in cf.items():
+                            if kw.arg == pn and dotted(kw.value) in env["streams"]:
+                                flds.add("self." + fld)
+                    if flds:
+                        env.setdefault("objstreams", {})[s.targets[0].id] = (k, flds)
             return state
         # Expr, AugAssign, AnnAssign, Assert, Delete ...
         for child in ast.iter_child_nodes(s):
@@ -397,6 +414,10 @@ class CursorInterp:
                 if name in k.methods:
                     return [(k.methods[name], env["self_cls"] or fi.cls)]
             return []
+        if recv is not None and recv in (env.get("objstreams") or {}):
+            k = env["objstreams"][recv][0]
+            found = prog.lookup(k, name)
+            return [(found[2], k)] if found and found[0] == "method" else []
         if recv is not None:
             r = prog.resolve_expr(fi.module, f.value)
             if r is not None:
@@ -441,6 +462,8 @@ class CursorInterp:
         owner = self_cls or callee.cls
         if owner is not None and owner.qual == "reader.TdmsReader":
             streams.add("self._file")
+        if isinstance(c.func, ast.Attribute) and isinstance(c.func.value, ast.Name) and c.func.value.id in (env.get("objstreams") or {}):
+            streams |= env["objstreams"][c.func.value.id][1]
         return streams
 
 
